@@ -30,9 +30,14 @@ text = "\n".join(out)
 p = os.path.join(HERE, "DESIGN.md")
 s = open(p).read()
 marker = "## 14. As built: what each check explores"
+tail = ""
 if marker in s:
+    rest = s[s.index(marker):]
+    m15 = re.search(r"\n-{20,}\n\n## 15\. ", rest)
+    if m15:
+        tail = "\n" + rest[m15.start():].rstrip("\n") + "\n"  # sections behind the generated one are kept
     s = s[:s.index(marker)].rstrip() + "\n\n"
 else:
     s = s.rstrip() + "\n\n---------------------------------------------------------------------------------------------------\n\n"
-open(p, "w").write(s + text)
+open(p, "w").write(s + text.rstrip("\n") + "\n" + tail)
 print("section 14 written,", len(text), "chars")
